@@ -5,6 +5,12 @@ use crate::wctx::WorkerCtx;
 use serde_json::Value;
 
 pub mod c01;
+pub mod c12;
+pub mod c13;
+pub mod c14;
+pub mod c15;
+pub mod c16;
+pub mod common;
 
 pub struct PropMeta {
     pub id: &'static str,
@@ -28,6 +34,11 @@ pub trait Prop: Send {
 pub fn get(id: &str) -> Option<Box<dyn Prop>> {
     Some(match id {
         "C01" => Box::new(c01::C01),
+        "C12" => Box::new(c12::C12),
+        "C13" => Box::new(c13::C13),
+        "C14" => Box::new(c14::C14),
+        "C15" => Box::new(c15::C15),
+        "C16" => Box::new(c16::C16),
         _ => return None,
     })
 }
